@@ -35,7 +35,7 @@ impl Node {
             return false;
         }
         let mut optimized = false;
-        fn optimize_run(nodes: &mut EcoVec<Node>, level: OptLevel, opt_single: bool) -> bool {
+        fn optimize_patterns(nodes: &mut EcoVec<Node>, level: OptLevel) -> bool {
             let mut optimized = false;
             while (OPTIMIZATIONS.iter().filter(|opt| opt.level() <= level)).any(|op| {
                 if !op.match_and_replace(nodes) {
@@ -46,9 +46,28 @@ impl Node {
             }) {
                 optimized = true;
             }
+            optimized
+        }
+        fn optimize_run(nodes: &mut EcoVec<Node>, level: OptLevel, opt_single: bool) -> bool {
+            let mut optimized = optimize_patterns(nodes, level);
             for node in nodes.make_mut() {
                 optimized |= node.optimize_impl(level, opt_single);
             }
+            optimized
+        }
+        // Optimize a node with parts as a run of one node.
+        // Its parts have just been optimized. If that changed nothing and no pattern
+        // applies to the node, optimizing the parts again would change nothing either,
+        // and doing it at every level takes time exponential in the nesting depth.
+        fn optimize_single(node: &mut Node, level: OptLevel, parts_optimized: bool) -> bool {
+            let nodes = node.as_vec();
+            let mut optimized = optimize_patterns(nodes, level);
+            if optimized || parts_optimized {
+                for node in nodes.make_mut() {
+                    optimized |= node.optimize_impl(level, false);
+                }
+            }
+            node.normalize();
             optimized
         }
 
@@ -62,8 +81,7 @@ impl Node {
                     optimized |= arg.node.optimize_impl(level, true);
                 }
                 if opt_single {
-                    optimized |= optimize_run(self.as_vec(), level, false);
-                    self.normalize();
+                    optimized |= optimize_single(self, level, optimized);
                 }
             }
             Node::Switch { branches, .. } => {
@@ -71,8 +89,7 @@ impl Node {
                     optimized |= branch.node.optimize_impl(level, true);
                 }
                 if opt_single {
-                    optimized |= optimize_run(self.as_vec(), level, false);
-                    self.normalize();
+                    optimized |= optimize_single(self, level, optimized);
                 }
             }
             Node::Array { inner, .. } => {
